@@ -32,6 +32,7 @@ func genSelectors() []logql.Selector {
 		{Matchers: []logql.LabelMatcher{lm("a", logql.OpRe, "x.*"), lm("b_1", logql.OpNotRe, "y|z")}},
 		{Matchers: []logql.LabelMatcher{lm("job", logql.OpEq, `a"b\c`)}},
 		{Matchers: []logql.LabelMatcher{lm("msg", logql.OpEq, "é\t`q`\n")}},
+		{Matchers: []logql.LabelMatcher{lm("msg", logql.OpEq, "raw:a\r\nb\tc\\d\re")}},
 	}
 }
 
